@@ -488,8 +488,36 @@ func registerEnvIntrinsics() {
 			in.unsupported("bufio.Write of %T", args[1])
 		}
 		in.bufioTouch(fr, o, "Write")
+		if e, bad := o.F["err"]; bad {
+			return Tuple{Int(0), e}, true // bufio.Writer errors are sticky
+		}
+		// a write larger than the buffer, on an empty buffer, goes straight to the connection
+		if n, ok := o.str.ConcreteLen(); ok && n == 0 {
+			big := in.tt.BVCmp("bvugt", s.LenTerm(in.tt), in.tt.BVConst(4096, 64))
+			if in.branch(boolVal(big), "bufio direct write") {
+				if e := in.connWrite(fr, o.F["dst"], s); !isNilValue(e) {
+					o.F["err"] = e
+					return Tuple{Int(0), e}, true
+				}
+				return Tuple{s.LenValue(in.tt), Iface{}}, true
+			}
+		}
 		o.str = concatStr(o.str, s)
 		return Tuple{s.LenValue(in.tt), Iface{}}, true
+	}
+	I["(*bufio.Writer).Size"] = func(in *Interp, fr *frame, args []Value) (Value, bool) {
+		return Int(4096), true
+	}
+	I["(*bufio.Writer).Buffered"] = func(in *Interp, fr *frame, args []Value) (Value, bool) {
+		o := in.sideObj(args[0], "bufwriter")
+		return o.str.LenValue(in.tt), true
+	}
+	I["(*bufio.Writer).Available"] = func(in *Interp, fr *frame, args []Value) (Value, bool) {
+		o := in.sideObj(args[0], "bufwriter")
+		if n, ok := o.str.ConcreteLen(); ok {
+			return Int(4096 - n), true
+		}
+		return in.fromTerm(in.tt.BVOp("bvsub", in.tt.BVConst(4096, 64), o.str.LenTerm(in.tt)), types.Typ[types.Int]), true
 	}
 	I["(*bufio.Writer).Flush"] = func(in *Interp, fr *frame, args []Value) (Value, bool) {
 		o := in.sideObj(args[0], "bufwriter")
@@ -497,12 +525,19 @@ func registerEnvIntrinsics() {
 			fr.tpanic("nil-deref", in.runtimeError("invalid memory address or nil pointer dereference"))
 		}
 		in.bufioTouch(fr, o, "Flush")
+		if e, bad := o.F["err"]; bad {
+			return e, true // sticky
+		}
 		if n, ok := o.str.ConcreteLen(); ok && n == 0 {
 			return Iface{}, true
 		}
 		s := o.str
 		o.str = Str{}
-		return in.connWrite(fr, o.F["dst"], s), true
+		e := in.connWrite(fr, o.F["dst"], s)
+		if !isNilValue(e) {
+			o.F["err"] = e
+		}
+		return e, true
 	}
 
 	// ---- net / tls ----
